@@ -252,7 +252,13 @@ func (b *Bank) Op(id uint64) OpSpec {
 		case roll < 72:
 			op.Kind, op.Arg = "arg", argKinds[r.Intn(len(argKinds))]
 			op.Type = b.pickValid(r).Name
+			if len(b.byst) > 0 && r.Chance(1, 2) {
+				op.Type = b.byst[r.Intn(len(b.byst))].Name // a type that the same histories also use validly
+			}
 			op.Legacy = []string{"size", "enc", "dec"}[r.Intn(3)]
+			if op.Arg == "struct-value" {
+				op.Legacy = "dec" // a struct passed by value is a legal argument for the other two entry points
+			}
 		default:
 			// bystanders and ordinary valid types
 			s := b.pickValid(r)
@@ -267,7 +273,7 @@ func (b *Bank) Op(id uint64) OpSpec {
 		op.Type = b.pickValid(r).Name
 		switch {
 		case roll < 35:
-			op.Kind, op.Buf = "enc", []string{"exact", "generous", "generous", "short"}[r.Intn(4)]
+			op.Kind, op.Buf = "enc", []string{"exact", "generous", "generous", "short", "shortspare", "shortspare"}[r.Intn(6)]
 			op.BufK = 1 + r.Intn(5)
 			op.ByValue = r.Chance(1, 3)
 		case roll < 50:
@@ -288,7 +294,7 @@ func (b *Bank) Op(id uint64) OpSpec {
 }
 
 var legacyCalls = []string{"pretouch", "pretouch-opts", "pretouch-nil", "pretouch-nonstruct", "nojit", "setdepth", "setil", "getstats", "options"}
-var argKinds = []string{"nil", "int", "string", "slice", "map", "ptrptr", "ptr-int", "nil-typed-ptr", "func", "struct-of-nonstruct-ptr"}
+var argKinds = []string{"nil", "int", "string", "slice", "map", "ptrptr", "ptr-int", "nil-typed-ptr", "func", "struct-of-nonstruct-ptr", "struct-value", "struct-value", "ptrptr"}
 
 var faultKinds = []string{"none", "trunc", "trunc", "flip", "flip", "count", "count", "code", "ftype", "splice", "zerotail", "garbage"}
 
@@ -432,7 +438,51 @@ func Derive(prof string, c *model.Corpus, seed uint64, run int, bankLimit uint64
 			rs.Sched.StartAt[i] = int64(r.Intn(400))
 		}
 	}
+	if prof == "C17" {
+		retargetLegacy(rs, b, r)
+	}
 	return rs
+}
+
+// retargetLegacy places the legacy controls where they could matter: a Pretouch names the type of an operation that
+// comes later in the same history (the warm-up idiom of RPC frameworks), of an earlier one, or a random definition
+// (rejected ones included); some are directly followed by a call on a rejected definition.
+func retargetLegacy(rs *RunSpec, b *Bank, r *model.Rng) {
+	var rejOps []uint64
+	for id := uint64(0); id < b.Size && len(rejOps) < 40; id++ {
+		if op := b.Op(id); op.Kind != "legacy" && b.C.Get(op.Type) != nil && b.C.Get(op.Type).Rejected() {
+			rejOps = append(rejOps, id)
+		}
+	}
+	var out []Step
+	for i, st := range rs.Hist {
+		op := b.Op(st.Op)
+		if st.Ev == "" && op.Kind == "legacy" {
+			var cands []uint64
+			lo, hi := i+1, len(rs.Hist)
+			if r.Chance(1, 4) {
+				lo, hi = 0, i
+			}
+			for j := lo; j < hi; j++ {
+				if o := b.Op(rs.Hist[j].Op); rs.Hist[j].Ev == "" && o.Kind != "legacy" {
+					cands = append(cands, rs.Hist[j].Op)
+				}
+			}
+			if len(cands) > 0 && r.Chance(4, 5) {
+				st.Arg = int(cands[r.Intn(len(cands))]) + 1 // +1: 0 means "the operation's own type"
+			}
+			out = append(out, st)
+			if len(rejOps) > 0 && r.Chance(1, 3) {
+				out = append(out, Step{Task: st.Task, Op: rejOps[r.Intn(len(rejOps))]})
+			}
+			continue
+		}
+		out = append(out, st)
+	}
+	for i := range out {
+		out[i].Slot = i
+	}
+	rs.Hist = out
 }
 
 func pickStrategy(r *model.Rng, s *SchedSpec) {
@@ -475,6 +525,9 @@ func deriveC08(rs *RunSpec, b *Bank, r *model.Rng) {
 		var root *model.StructDef
 		for try := 0; try < 80; try++ {
 			s := b.valid[r.Intn(len(b.valid))]
+			if len(b.recur) > 0 && try < 40 && r.Chance(1, 2) {
+				s = b.recur[r.Intn(len(b.recur))] // mutually recursive clusters: where publication order matters most
+			}
 			if used[s.Name] || len(byType[s.Name]) == 0 {
 				continue
 			}
